@@ -14,8 +14,8 @@ def I(n, d, tier="quick"): return H("c11_init::" + n, desc=d, tier=tier, timeout
 HARNESSES = [
     I("c11_init_none_fail", "init: nothing fails"), I("c11_init_stop_fails", "init: stopping the process fails"), I("c11_init_auxv_fails", "init: completing auxv fails"),
     I("c11_init_threads_fail", "init: thread enumeration fails"), I("c11_init_mappings_fail", "init: mapping enumeration fails", "thorough"), I("c11_init_all_fail", "init: all four fail"),
-    H("c19_dump::g_dump_all_best_effort_fail", desc="dump: every best-effort step fails", loops={"MINIDUMP_EXCEPTION": 20, "alloc_from_array": 8}, timeout=2400, est_gb=8, mem_gb=24),
-    H("c19_dump::g_dump_lsb_falls_back", desc="dump: lsb-release unreadable, os-release used: no error", loops={"MINIDUMP_EXCEPTION": 20, "alloc_from_array": 8}, timeout=2400, est_gb=8, mem_gb=24),
+    H("c19_dump::g_dump_all_best_effort_fail", desc="dump: every best-effort step fails (exceeds 24 GB: thorough tier, 40 GB cap)", loops={"MINIDUMP_EXCEPTION": 20, "alloc_from_array": 8}, timeout=3400, est_gb=30, mem_gb=40, tier="thorough"),
+    H("c19_dump::g_dump_lsb_falls_back", desc="dump: lsb-release unreadable, os-release used: no error (exceeds 24 GB: thorough tier)", loops={"MINIDUMP_EXCEPTION": 20, "alloc_from_array": 8}, timeout=3400, est_gb=30, mem_gb=40, tier="thorough"),
     H("c19_dump::g_dump_handles_fail", desc="dump: listing open files fails", loops={"MINIDUMP_EXCEPTION": 20, "alloc_from_array": 8}, timeout=2400, est_gb=8, mem_gb=24),
     H("c19_dump::g_dump_cpuinfo_fails", desc="dump: cpuinfo copy fails", loops={"MINIDUMP_EXCEPTION": 20, "alloc_from_array": 8}, timeout=2400, est_gb=8, mem_gb=24, tier="thorough"),
     H("c19_dump::g_dump_lsb_and_os_release_fail", desc="dump: both release files unreadable", loops={"MINIDUMP_EXCEPTION": 20, "alloc_from_array": 8}, timeout=2400, est_gb=8, mem_gb=24, tier="thorough"),
